@@ -64,6 +64,10 @@ def scheme_table():
     t["sun_md5_crypt"] = dict(base=H.sun_md5_crypt.using(default_rounds=10), P=P(0, 999999999, 10), greedy=False,
                               kws=[kw(), kw(d=0), kw(d=0, maxA=5), kw(minA=0, maxA=0), kw(maxA=0), kw(varyK="int", varyV=3), kw(minA=5)],
                               vals=[0, 1, 4, 5, 6, 10, 11])
+    # a prefix-wrapped scheme: the wrapper hands every cost option on to the hasher it wraps
+    t["ldap_sha256_crypt"] = dict(base=H.ldap_sha256_crypt.using(default_rounds=2000), P=P(1000, 999999999, 2000), greedy=False,
+                                  kws=[kw(), kw(minA=1500), kw(maxA=1500), kw(minA=1500, maxA=2500), kw(d=1800), kw(minA=2500), kw(varyK="int", varyV=100)],
+                                  vals=[1000, 1499, 1500, 1501, 2000, 2500, 2501])
     t["md5_crypt"] = dict(base=H.md5_crypt, P=None, greedy=False, kws=[kw()], vals=[UNSET])
     t["des_crypt"] = dict(base=H.des_crypt, P=None, greedy=False, kws=[kw(), kw(minA=5)], vals=[UNSET])
     t["plaintext"] = dict(base=H.plaintext, P=None, greedy=True, kws=[kw()], vals=[UNSET])
@@ -127,6 +131,9 @@ class Replayer:
     def parse(self, text):
         """independent attribution of a real hash text to (scheme, cost)"""
         T = self.T
+        if text.startswith("{CRYPT}$5$"):
+            w = T["ldap_sha256_crypt"]["base"]
+            return "ldap_sha256_crypt", w.wrapped.from_string(w._unwrap_hash(text)).rounds
         if text.startswith("$5$"):
             s = "sha256_crypt"
         elif text.startswith("$2"):
@@ -156,9 +163,9 @@ class Replayer:
             # exactly this cost (using(rounds=..) would let the scheme adjust it, e.g. bsdi forces odd)
             outs = []
             for kwi in ([dict(ident=i) for i in ("$2a$", "$2b$", "$2y$")] if h["scheme"] == "bcrypt" else [{}]):   # every ident a stored bcrypt hash may carry
-                o = base(rounds=h["rounds"], use_defaults=True, **kwi)
+                o = getattr(base, "wrapped", base)(rounds=h["rounds"], use_defaults=True, **kwi)
                 o.checksum = o._calc_checksum(pw)
-                outs.append(o.to_string())
+                outs.append(base._wrap_hash(o.to_string()) if hasattr(base, "wrapped") else o.to_string())
             self.rnd.shuffle(outs)
             self.alts[outs[0]] = outs
             return outs[0]
@@ -178,6 +185,25 @@ class Replayer:
         try:
             ctx = CryptContext(**cfgd)
             got = "ok"
+            # the policy belongs to the configuration, not to the way the object came about: the same decisions are demanded of a
+            # copy, of a context rebuilt from its export, and of one that was configured differently before
+            route = rnd.choice(["ctor", "ctor", "copy", "dict", "staged-load", "empty-update", "copy-noop-update"])
+            if route == "copy":
+                ctx = ctx.copy()
+            elif route == "dict":
+                ctx = CryptContext(**ctx.to_dict(resolve=True)) if any(not isinstance(x, str) for x in cfgd.get("schemes", [])) else CryptContext(**ctx.to_dict())
+            elif route == "staged-load":
+                c2 = CryptContext(schemes=["md5_crypt", "des_crypt"], deprecated=["des_crypt"], admin__context__default="md5_crypt", admin__context__deprecated=[])
+                c2.load(cfgd)
+                ctx = c2
+            elif route == "empty-update":
+                c2 = CryptContext()
+                c2.update(**cfgd)
+                ctx = c2
+            elif route == "copy-noop-update":
+                ctx = ctx.copy()
+                ctx.update({})
+            shown["built_by"] = route
         except (KeyError, ValueError, TypeError) as e:
             got = type(e).__name__ if type(e).__name__ in ("KeyError", "ValueError", "TypeError") else \
                 ("KeyError" if isinstance(e, KeyError) else "ValueError" if isinstance(e, ValueError) else "TypeError")
@@ -360,6 +386,7 @@ def run(chk):
     if valid:
         chk.sample({"configuration": valid[0][0]["cfg"], "steps": [{k: s[k] for k in ("op", "cat", "pw", "h", "res")} for s in valid[0][1:4]]})
     category_specific_settings(chk)
+    context_keywords(chk)
     chk.extra["behaviours"] = len(behs)
     chk.extra["valid_configurations"] = sum(1 for b in behs if b[0]["res"][0] == "ok")
     chk.assumptions += ["schemes are real handlers pre-customised to cheap default costs (sha256_crypt 2000, bcrypt 5, bsdi_crypt 21); hard limits are the real ones",
@@ -370,6 +397,58 @@ SPECIFIC = [("scrypt", "block_size", 2, lambda s: int(s.split(",r=")[1].split(",
             ("fshp", "variant", 0, lambda s: int(s[5]), 1, dict(fshp__rounds=1)),
             ("bcrypt", "ident", "2a", lambda s: s[1:3], "2b", dict(bcrypt__rounds=4)),
             ("bcrypt_sha256", "version", 1, lambda s: 2 if "v=2" in s else 1, 2, dict(bcrypt_sha256__rounds=4))]
+
+
+def context_keywords(chk):
+    """keywords that only some schemes take (user=..) reach those schemes and are dropped for the others - whichever way the context came
+    to its configuration (built at once, reloaded, a scheme added later, copied with changes)"""
+    from passlib.context import CryptContext
+    import passlib.hash as H
+    cfg = dict(schemes=["sha256_crypt", "postgres_md5", "md5_crypt"], deprecated=["postgres_md5"], sha256_crypt__default_rounds=1000)
+    pg = H.postgres_md5.hash("pw", user="alice")
+    m5 = H.md5_crypt.hash("pw")
+
+    def staged_load():
+        c = CryptContext(schemes=["md5_crypt"])
+        c.load(cfg)
+        return c
+
+    def staged_update():
+        c = CryptContext(schemes=["sha256_crypt", "md5_crypt"], sha256_crypt__default_rounds=1000)
+        c.update(schemes=cfg["schemes"], deprecated=cfg["deprecated"])
+        return c
+
+    def shrunk_and_back():
+        c = CryptContext(**cfg)
+        c.update(schemes=["sha256_crypt", "md5_crypt"], deprecated=[])
+        c.update(schemes=cfg["schemes"], deprecated=cfg["deprecated"])
+        return c
+    routes = {"ctor": lambda: CryptContext(**cfg), "staged-load": staged_load, "staged-update": staged_update, "shrunk-and-back": shrunk_and_back,
+              "copy-with-changes": lambda: CryptContext(schemes=["md5_crypt"]).copy(**cfg), "from-export": lambda: CryptContext.from_string(CryptContext(**cfg).to_string())}
+    for rname, mk in routes.items():
+        steps = []
+        try:
+            c = mk()
+            for label, fn, want in (("hash(user=)", lambda: c.identify(c.hash("pw", user="alice")), "sha256_crypt"),
+                                    ("verify(postgres hash, user=)", lambda: c.verify("pw", pg, user="alice"), True),
+                                    ("verify(postgres hash, other user)", lambda: c.verify("pw", pg, user="bob"), False),
+                                    ("verify(md5_crypt hash, user=)", lambda: c.verify("pw", m5, user="alice"), True),
+                                    ("needs_update(postgres hash)", lambda: c.needs_update(pg), True),
+                                    ("verify_and_update(postgres hash, user=)", lambda: (lambda r: (r[0], c.identify(r[1]) if r[1] else None))(c.verify_and_update("pw", pg, user="alice")), (True, "sha256_crypt")),
+                                    ("verify_and_update(md5_crypt hash, user=)", lambda: c.verify_and_update("pw", m5, user="alice"), (True, None))):
+                chk.evaluations += 1
+                chk.count(("context-kwds", rname, label))
+                chk.action("context-keyword")
+                try:
+                    got = fn()
+                except Exception as ex:
+                    got = f"{type(ex).__name__}: {ex}"[:100]
+                steps.append({"call": label, "got": repr(got), "expected": repr(want)})
+                if got != want:
+                    chk.violation(f"context-keywords:{rname}", f"context built by {rname}: {label} gave {got!r}, expected {want!r}", {"configuration": cfg, "route": rname, "steps": steps})
+                    break
+        except Exception as ex:
+            chk.violation(f"context-keywords:{rname}:build", f"context built by {rname}: {type(ex).__name__}: {ex}", {"configuration": cfg, "route": rname})
 
 
 def category_specific_settings(chk):
